@@ -21,7 +21,7 @@ import sys
 
 from .common import Ctx, fork_map, load_design_module, import_cohdl, scratch_dir, REPO, InfraError
 from . import lean_io
-from .c11_pool import POOL, RESERVED_OPTION, OPTION_STEPS
+from .c11_pool import POOL, RESERVED_OPTION, OPTION_STEPS, CHURN
 
 ACCEPTED = [n for n, v in POOL.items() if v[1] == "ok"]
 REJECTED = [n for n, v in POOL.items() if v[1] == "reject"]
@@ -125,6 +125,44 @@ def _containers():
     return {k: v for k, v in out.items() if not any(w in k for w in CONTAINER_WHITELIST)}
 
 
+def _id_keyed():
+    """every module-/class-level dict of a cohdl module whose keys all look like `id()` values (found by shape, not by
+    name): caches keyed by the address of an object"""
+    out = {}
+    for mname, mod in list(sys.modules.items()):
+        if mod is None or not (mname == "cohdl" or mname.startswith("cohdl.")):
+            continue
+        for an, av in list(vars(mod).items()):
+            if an.startswith("__"):
+                continue
+            if isinstance(av, dict):
+                out[f"{mname}.{an}"] = av
+            elif isinstance(av, type) and getattr(av, "__module__", None) == mname:
+                for cn, cv in list(vars(av).items()):
+                    if not cn.startswith("__") and isinstance(cv, dict):
+                        out[f"{mname}.{av.__name__}.{cn}"] = cv
+    return {k: d for k, d in out.items() if d and all(isinstance(x, int) and not isinstance(x, bool) and x > (1 << 20) for x in d)}
+
+
+def _dead_keys(r):
+    """id-keyed caches with an entry (added since the start of the history) that does NOT keep its key object alive:
+    an address may be reused as key only while the cached entry references the object living there (the entry itself,
+    one of its elements or one of its attributes must be the object whose id() is the key)"""
+    bad = []
+    for name, d in _id_keyed().items():
+        old = r["idk0"].get(name, ())
+        dead = 0
+        for key, v in list(d.items()):
+            if key in old:
+                continue
+            elems = [v] + (list(v) if isinstance(v, (list, tuple)) else []) + list(getattr(v, "__dict__", {}).values())
+            if not any(id(e) == key for e in elems):
+                dead += 1
+        if dead:
+            bad.append(name.replace("cohdl.", "", 1))
+    return sorted(bad)
+
+
 def _canon(x):
     if isinstance(x, (str, int, bool, float, type(None))):
         return repr(x)
@@ -207,6 +245,7 @@ def _snapshot(r, classes):
         if [p for p in static if p not in info.ports]:
             ndp.append(code + ":lost-static-port")
     s += " dyn=" + ",".join(sorted(dyn)) + " ndp=" + ",".join(sorted(ndp))
+    s += " idk=" + ",".join(_dead_keys(r))
     return s
 
 
@@ -283,13 +322,14 @@ def history_task(item):
     from cohdl import std
 
     junk = []
-    if perturb:
+    if perturb and perturb > 0:
         # move id() values / dict orders: allocate before anything is loaded or compiled
         junk = [object() for _ in range(perturb * 997)] + [{i: str(i)} for i in range(perturb * 101)]
     r = _refs()
     mods, classes = {}, {}
     out = []
     r["digest0"] = _digests()
+    r["idk0"] = {k: set(d) for k, d in _id_keyed().items()}
     for name in hist:
         name_cfg, _, opt = name.partition("#")
         bname, _, cfg = name_cfg.partition("@")
@@ -311,6 +351,12 @@ def history_task(item):
             step = ["rej", _err_class(e), _phase_of(e.__traceback__)]
         step.append(_snapshot(r, classes))
         out.append(step)
+        if perturb == -1:
+            # churn mode: everything the finished compilation no longer references is freed now, so that the
+            # addresses of its per-elaboration objects (bound methods, closures, helper objects) can be recycled
+            import gc
+
+            gc.collect()
     del junk
     return out
 
@@ -460,7 +506,7 @@ class Codes:
             elif k == "dyn":
                 v = ",".join(sorted(f"{self.ent_of[int(q.split(':')[0])]}:{self.name_of[int(q.split(':')[1])]}" for q in v.split(",") if q))
             out.append(f"{k}={v}")
-        return " ".join(out) + " ndp="
+        return " ".join(out) + " ndp= idk="
 
     def canon_real(self, snap):
         out = []
@@ -550,23 +596,32 @@ def effect(base_step, step):
     return None
 
 
-def shrink_history(hist, i, base, eff):
+def shrink_history(hist, i, base, eff, perturb=0):
     """smallest sub-history (ending in hist[i]) on which design hist[i] still shows the effect"""
     cur = list(hist[: i + 1])
     # most leaks need one culprit: try every [c, victim] first (one batch of forks)
     cands = [[c, cur[-1]] for c in dict.fromkeys(cur[:-1])]
-    for c, r in zip(cands, real_histories(cands)):
+    for c, r in zip(cands, real_histories(cands, perturb)):
         if effect(base[c[-1]], r[-1]) == eff:
             return c
-    changed = True
-    while changed and len(cur) > 1:
-        changed = False
-        cands = [cur[:j] + cur[j + 1:] for j in range(len(cur) - 1)]
-        res = real_histories(cands)
+    # delta debugging on the prefix: drop chunks (halves, quarters, .. single elements) while the effect persists
+    chunk = max(1, (len(cur) - 1) // 2)
+    rounds = 0
+    while len(cur) > 1 and rounds < 10:
+        rounds += 1
+        starts = list(range(0, len(cur) - 1, chunk))
+        cands = [cur[:j] + cur[min(j + chunk, len(cur) - 1):] for j in starts]
+        res = real_histories(cands, perturb)
         for c, r in zip(cands, res):
-            if effect(base[c[-1]], r[-1]) == eff:
-                cur, changed = c, True
+            if len(c) < len(cur) and effect(base[c[-1]], r[-1]) == eff:
+                cur = c
                 break
+        else:
+            if chunk == 1:
+                break
+            chunk = max(1, chunk // 2)
+            continue
+        chunk = max(1, min(chunk, (len(cur) - 1) // 2 or 1))
     return cur
 
 
@@ -642,8 +697,9 @@ def run(ctx: Ctx):
     groups = {}
     for n in POOL:
         groups.setdefault(n.partition("@")[0], []).append(n)
-    for vs in groups.values():
-        if len(vs) > 1:
+    churn_bases = {c.partition("@")[0] for c in CHURN}
+    for b_, vs in groups.items():
+        if len(vs) > 1 and b_ not in churn_bases:
             hists += [[v1, v2, v1] for v1 in vs for v2 in vs]
     pairs = [[a, x] for a in ACCEPTED for x in POOL if x != a]
     hists += pairs if not ctx.quick else rng.sample(pairs, 20)
@@ -660,8 +716,19 @@ def run(ctx: Ctx):
             uniq.append(h)
     # the pristine [n, n] runs of the baseline are part of the checked histories (same class compiled twice, for
     # every design of the pool, against its own first compile)
-    real = base_runs + real_histories(uniq)
-    hists = singles + uniq
+    # churn: MANY compilations in one interpreter (garbage collected between them) of structurally similar designs whose
+    # contexts are bound methods of short-lived helper objects, callable objects, closures, nested functions - accepted
+    # and rejected configurations mixed, some chains interleaved with unrelated designs - so that addresses of freed
+    # per-elaboration objects are recycled by later compilations
+    churn = []
+    for k in range(ctx.scale(6, 30)):
+        n = ctx.scale(40, 100)
+        alphabet = list(CHURN) + (["a_comb", "a_coro", "o_kwargs", "a_inline"] if k % 3 == 2 else [])
+        chain = [rng.choice(alphabet) for _ in range(n)]
+        churn.append(chain)
+    churn_set = {tuple(c) for c in churn}
+    real = base_runs + real_histories(uniq) + real_histories(churn, perturb=-1)
+    hists = singles + uniq + churn
 
     # ---- (b) the property: verdict and bytes after every history prefix = fresh baseline
     found = {}
@@ -678,6 +745,7 @@ def run(ctx: Ctx):
                 continue
             found.setdefault((tuple(h[:i]), eff), []).append((h, i))
     reported_prefixes = {}
+    origin = {}
 
     def is_subseq(a, b):
         it = iter(b)
@@ -686,20 +754,37 @@ def run(ctx: Ctx):
     # minimise: shortest failing histories first, one report per (minimal culprit prefix, effect); a longer failing
     # prefix that contains an already established culprit (same effect) is explained by it
     for (prefix, eff), occ in sorted(found.items(), key=lambda kv: (len(kv[0][0]), kv[0])):
+        if len(reported_prefixes) >= 8:
+            break  # enough minimal failing histories (each minimisation costs forks); the count of failing steps is in the evidence
         h, i = occ[0]
         known = [p for (p, e) in reported_prefixes if e == eff and is_subseq(p, prefix)]
         if known:
             for p in known[:1]:
                 reported_prefixes[(p, eff)].extend(hh[ii] for hh, ii in occ)
             continue
-        small = list(prefix) + [h[i]] if len(prefix) <= 1 else shrink_history(h, i, base, eff)
+        small = list(prefix) + [h[i]] if len(prefix) <= 1 else shrink_history(h, i, base, eff, -1 if tuple(h) in churn_set else 0)
         key = (tuple(small[:-1]), eff)
         reported_prefixes.setdefault(key, []).extend([small[-1]] + [hh[ii] for hh, ii in occ if tuple(hh[:ii]) == key[0]])
-    for (prefix, eff), victims in sorted(reported_prefixes.items()):
+        origin.setdefault(key, (h, i))
+    steps_of = {tuple(h): st for h, st in zip(hists, real)}
+    max_reports = 8
+    for (prefix, eff), victims in sorted(reported_prefixes.items(), key=lambda kv: (len(kv[0][0]), kv[0]))[:max_reports]:
         victims = sorted(set(victims))
         v = victims[0]
         small = list(prefix) + [v]
-        steps = real_histories([small])[0]
+        gc_mode = any(is_subseq(small, list(c)) for c in churn_set)
+        # effects that depend on recycled addresses do not show in every run: re-run the minimised history three times
+        reruns = real_histories([small] * 3, -1 if gc_mode else 0)
+        steps = next((r_ for r_ in reruns if effect(base[v], r_[-1]) == eff), None)
+        flaky = ""
+        if steps is None:
+            # not reproduced: report the history on which it was observed, with the observed data
+            h0, i0 = origin[(prefix, eff)]
+            small, v = list(h0[: i0 + 1]), h0[i0]
+            prefix = tuple(small[:-1])
+            steps = steps_of[tuple(h0)][: i0 + 1]
+            gc_mode = tuple(h0) in churn_set
+            flaky = " [depends on the addresses the allocator hands out: observed once, the minimised history did not show it in 3 re-runs; replay = the observed history]"
         st = steps[-1]
         if eff == "bytes-differ":
             ln, x, y = first_line_diff(base[v][1], st[1])
@@ -710,14 +795,15 @@ def run(ctx: Ctx):
             what = f"`{v}` (rejected in a fresh interpreter: {base[v][2]}) is accepted"
         sig = f"history:{'>'.join(prefix)}:{eff}" if prefix else f"nondeterministic:{v}:{eff}"
         lead = f"after the history [{', '.join(prefix)}] " if prefix else "compiled as the FIRST design of another process (same interpreter, same source) "
-        ctx.report(sig, f"{lead}{what}; also affected as last design: {victims[1:6]}",
-                   {"history": small, "effect": eff, "sources": {n: POOL[n][0] for n in set(small)},
+        ctx.report(sig, f"{lead}{what}{flaky}; also affected as last design: {victims[1:6]}",
+                   {"history": small, "effect": eff, "gc_between_steps": gc_mode, "sources": {n: POOL[n][0] for n in set(small)},
                     "expected": list(base[v][:3]) if base[v][0] == "rej" else ["ok", "sha256:" + verdict_of(base[v])[1]],
                     "observed": list(st[:3]) if st[0] == "rej" else ["ok", "sha256:" + verdict_of(st)[1]],
                     "globals_after_each_step": [s[3] for s in steps]})
+    ctx.extra["failing_history_steps"] = sum(len(o) for o in found.values())
     ctx.obligation("property: verdict and bytes of every design after every history prefix = first compile in a fresh process",
-                   not reported_prefixes, detail=f"{len(hists)} histories, {sum(len(h) for h in hists)} compilations, "
-                   f"{len(reported_prefixes)} minimal failing histories")
+                   not reported_prefixes, detail=f"{sum(len(o) for o in found.values())} failing steps; " + f"{len(hists)} histories, {sum(len(h) for h in hists)} compilations, "
+                   f"{len(reported_prefixes)} minimal failing histories (at most {max_reports} reported)")
 
     # ---- (a) model state vs real globals after every step
     cand_cfgs = []
@@ -793,7 +879,8 @@ def run(ctx: Ctx):
         confirmed = len({tuple(v) for v in alone.values()}) > 1 or (sb == "harness" and effect(base[n], alone[sa] + [None]) is not None)
         ta = texts[sa]
         tb = texts[sb] if sb != "harness" else list(base[n][:2])
-        ln, x, y = first_line_diff(ta[1], tb[1]) if ta[0] == "ok" and tb[0] == "ok" else (0, ta[1][:80], tb[1][:80])
+        ln, x, y = first_line_diff(ta[1], tb[1]) if ta[0] == "ok" and tb[0] == "ok" else \
+            (0, ta[0] + " " + ta[1][:60].replace("\n", " "), tb[0] + " " + tb[1][:60].replace("\n", " "))
         ctx.report(f"hashseed:{n}", f"`{n}` compiled in fresh interpreters gives different results with PYTHONHASHSEED={sa} and "
                    f"{'PYTHONHASHSEED=' + sb if sb != 'harness' else 'in the harness process'} (line {ln}: `{x}` -> `{y}`); "
                    f"{len(groups_)} distinct results over seeds {seeds}; "
@@ -824,7 +911,8 @@ def replay(ctx, data):
     if "history" in r:
         h = r["history"]
         base = real_histories([[h[-1]]])[0][0]
-        steps = real_histories([h])[0]
+        attempts = real_histories([h] * 5, -1 if r.get("gc_between_steps") else 0)
+        steps = next((a_ for a_ in attempts if effect(base, a_[-1]) is not None), attempts[0])
         for n, s in zip(h, steps):
             print(f"  {n:20s} {s[0]} {'' if s[0] == 'ok' else s[1]}   globals: {s[3]}")
         eff = effect(base, steps[-1])
